@@ -797,6 +797,8 @@ def format_docstring(obj: model.Documentable) -> Tag:
         # The docstring is rendered on the page of obj: that is not the page the linker of the source remembers
         # when the docstring is inherited, or when the linker was created before the object was re-exported.
         with source.docstring_linker.switch_context(obj):
+            # ... but problems are still reported where the docstring is written.
+            source.docstring_linker.reporting_obj = source
             stan = safe_to_stan(obj.parsed_docstring, source.docstring_linker, source, fallback=format_docstring_fallback)
         ret(unwrap_docstring_stan(stan))
 
@@ -806,6 +808,7 @@ def format_docstring(obj: model.Documentable) -> Tag:
     if source is not None:
         assert obj.parsed_docstring is not None, "ensure_parsed_docstring() did not do it's job"
         with source.docstring_linker.switch_context(obj):
+            source.docstring_linker.reporting_obj = source
             for field in obj.parsed_docstring.fields:
                 fh.handle(Field.from_epydoc(field, source))
     if isinstance(obj, model.Function):
